@@ -106,11 +106,15 @@ func (vm *VM) errIndexOutOfRange() runtimeError {
 
 // newPanic returns a new *PanicError with the given error message.
 func (vm *VM) newPanic(msg any) *PanicError {
-	return &PanicError{
-		message:  msg,
-		path:     vm.fn.InstructionInfo[vm.pc-1].Path,
-		position: vm.fn.InstructionInfo[vm.pc-1].Position,
+	p := &PanicError{message: msg}
+	// vm.fn is nil if a deferred native function panics while the virtual
+	// machine is already panicking.
+	if vm.fn != nil {
+		info := vm.fn.InstructionInfo[vm.pc-1]
+		p.path = info.Path
+		p.position = info.Position
 	}
+	return p
 }
 
 // convertPanic converts a panic to an error.
@@ -124,6 +128,15 @@ func (vm *VM) convertPanic(msg any) error {
 		// A fatal error is fatal whatever instruction is running: it can
 		// also be raised by a deferred native call.
 		return err
+	}
+	if vm.fn == nil {
+		// The virtual machine is already panicking and the panic has been
+		// raised by a deferred native function: it is classified as the
+		// panic of a native call.
+		if _, ok := msg.(runtime.Error); ok {
+			return &fatalError{msg: msg}
+		}
+		return vm.newPanic(msg)
 	}
 	switch op := vm.fn.Body[vm.pc-1].Op; op {
 	case OpAddr, OpIndex, -OpIndex, OpIndexRef, -OpIndexRef, OpSetSlice, -OpSetSlice:
